@@ -206,8 +206,10 @@ def run(repo: Repo, chk: Check):
             outer = lp
     if outer is None:
         raise AnalysisError("assign_registers: loop over scopes not found")
-    chk.judge("R04.f", "register_assignment:assign_registers:scopes are allocated in caller-before-callee order", norm(outer.iter) == "sorted_scopes",
-              f"the allocation loop iterates {norm(outer.iter)}, not the topologically sorted scope list", None, wa)
+    order_list = norm(outer.iter)
+    appended = [c for c in ast.walk(af) if isinstance(c, ast.Call) and isinstance(c.func, ast.Attribute) and c.func.attr == "append" and norm(c.func.value) == order_list]
+    chk.judge("R04.f", "register_assignment:assign_registers:scopes are allocated in caller-before-callee order", isinstance(outer.iter, ast.Name) and bool(appended),
+              f"the allocation loop iterates {order_list}, which is not a list built element by element by the ordering loop", None, wa)
     avail_defs = [st for st in ast.walk(outer) if isinstance(st, ast.Assign) and any(norm(tg) == avail_name for tg in st.targets)]
     last = avail_defs[-1] if avail_defs else None
     parent_name = None
@@ -302,14 +304,70 @@ def run(repo: Repo, chk: Check):
               "a register allocated in a scope is not (unconditionally) added to that scope's blocked set: a callee may be given the same register "
               "while the caller's value is live across the call", None, wa)
     # ordering loop: scope appended only when all its callers are already sorted
-    ok_ord = False
-    for c in ast.walk(af):
-        if isinstance(c, ast.Call) and norm(c.func) == "sorted_scopes.append":
-            par = c
-            while par is not None and not isinstance(par, ast.If):
-                par = getattr(par, "parent", None)
-            if par is not None and "issubset" in norm(par.test) and "called_from" in norm(par.test) and "sorted_scopes" in norm(par.test):
-                ok_ord = True
+    def placed_set(e, at, depth=0):
+        """does *e* denote the set of the scopes ordered so far (set(L), L itself, or a local bound to that)?"""
+        t_ = norm(e)
+        if t_ in (order_list, f"set({order_list})", f"frozenset({order_list})"):
+            return True
+        if isinstance(e, ast.Name) and depth < 3:
+            ids_ = live_ids(cfg, at)
+            ds_ = rd.at(ids_[0], e.id) if ids_ else []
+            return bool(ds_) and all(d_.kind == "assign" and not d_.index and d_.value is not None and placed_set(d_.value, cfg.nodes[d_.node].ast, depth + 1) for d_ in ds_)
+        return False
+
+    def callers_ready(t_, var, at):
+        """called_from[var] / called_from.get(var, ..)  is a subset of the scopes ordered so far"""
+        def callers_of(e):
+            return (isinstance(e, ast.Subscript) and "called_from" in norm(e.value) and norm(e.slice) == var) or \
+                   (isinstance(e, ast.Call) and isinstance(e.func, ast.Attribute) and e.func.attr == "get" and "called_from" in norm(e.func.value) and e.args and norm(e.args[0]) == var)
+        if isinstance(t_, ast.Call) and isinstance(t_.func, ast.Attribute) and t_.func.attr == "issubset" and callers_of(t_.func.value) and t_.args:
+            return placed_set(t_.args[0], at)
+        if isinstance(t_, ast.Compare) and len(t_.ops) == 1 and isinstance(t_.ops[0], ast.LtE) and callers_of(t_.left):
+            return placed_set(t_.comparators[0], at)
+        if isinstance(t_, ast.Compare) and len(t_.ops) == 1 and isinstance(t_.ops[0], ast.GtE) and callers_of(t_.comparators[0]):
+            return placed_set(t_.left, at)
+        if isinstance(t_, ast.UnaryOp) and isinstance(t_.op, ast.Not) and isinstance(t_.operand, ast.BinOp) and isinstance(t_.operand.op, ast.Sub) and callers_of(t_.operand.left):
+            return placed_set(t_.operand.right, at)      # not (callers - placed)
+        return False
+
+    def element_ready(x, at, depth=0):
+        """the appended element *x* has all its callers placed: by a test on the path, or because it is drawn from a list filtered by that test"""
+        if depth > 3:
+            return False
+        ids_ = live_ids(cfg, at)
+        if isinstance(x, ast.Name):
+            for tst, pol in (guard_atoms(cfg, ids_[0]) if ids_ else []):
+                if pol and callers_ready(tst, x.id, at):
+                    return True
+            ds_ = rd.at(ids_[0], x.id) if ids_ else []
+            if ds_ and all(d_.kind == "assign" and not d_.index and d_.value is not None and element_ready(d_.value, cfg.nodes[d_.node].ast, depth + 1) for d_ in ds_):
+                return True
+            if ds_ and all(d_.kind == "for" and d_.value is not None and filtered_ready(d_.value, cfg.nodes[d_.node].ast, depth + 1) for d_ in ds_):
+                return True
+            return False
+        if isinstance(x, ast.Subscript) and isinstance(x.slice, (ast.Constant, ast.UnaryOp)):
+            return filtered_ready(x.value, at, depth + 1)
+        if isinstance(x, ast.Call) and norm(x.func) in ("next", "min", "max") and x.args:
+            return filtered_ready(x.args[0], at, depth + 1)
+        return False
+
+    def filtered_ready(e, at, depth=0):
+        """a list / generator whose every element passed the callers-are-placed test"""
+        if depth > 4:
+            return False
+        if isinstance(e, ast.Call) and norm(e.func) in ("sorted", "list", "iter", "reversed") and e.args:
+            return filtered_ready(e.args[0], at, depth + 1)
+        if isinstance(e, (ast.ListComp, ast.GeneratorExp, ast.SetComp)) and len(e.generators) == 1 and isinstance(e.generators[0].target, ast.Name):
+            v = e.generators[0].target.id
+            if isinstance(e.elt, ast.Name) and e.elt.id == v and any(callers_ready(c_, v, at) for c_ in e.generators[0].ifs):
+                return True
+            return False
+        if isinstance(e, ast.Name):
+            ids_ = live_ids(cfg, at)
+            ds_ = rd.at(ids_[0], e.id) if ids_ else []
+            return bool(ds_) and all(d_.kind == "assign" and not d_.index and d_.value is not None and filtered_ready(d_.value, cfg.nodes[d_.node].ast, depth + 1) for d_ in ds_)
+        return False
+    ok_ord = bool(appended) and all(c.args and element_ready(c.args[0], c) for c in appended)
     chk.judge("R04.f", "register_assignment:assign_registers:a scope is ordered only after all scopes it is called from", ok_ord,
               "sorted_scopes.append(scope) is not guarded by called_from[scope] ⊆ already-sorted scopes", None, wa)
     rule_functions_below_modules(repo, chk, "R04.f")
